@@ -43,6 +43,12 @@ def streams(tier, rng, P, only=None, cases=None):
             nm = rng.choice(cmd_names)
             srcs.append(rng.choice(["Function %s(N){ Result = N + 12 } Int K = %s(48) n(K)", "FUNCTION %s(N){ RETURN(N+1) } PRINT(%s(2)) c",
                                     "Int %s=3; PRINT(%s) c", "STR %s={c d}; %s e"]) % (nm, nm))
+        # … and so must parameters and local variables of a user function that are named like commands
+        for _ in range(40 if big else 10):
+            a, b, c3 = rng.choice(cmd_names), rng.choice(cmd_names), rng.choice(cmd_names)
+            srcs.append(rng.choice(["Function Swell(Int %s, Int %s){ l8 c d e } TR(1) o5 l4 Swell(100, 40) g PRINT({%s})",
+                                    "FUNCTION Fq(%s, %s=3){ INT %s=1 RETURN(5) } PRINT(Fq(1)) c",
+                                    "Function Gq(Str %s){ Int %s = 2; Int %s = 3; c } Gq({a}) d"]) % (a, b, c3))
         # byte-level layout of the source file: line ends, byte-order mark, line breaks inside strings and comments — the command-line tool
         # must hand the library's entry point the text as it is
         srcs += ['TrackName={"ab\r\ncd"}\r\nl8 cde\r\n', 'Text{"a\rb"} c\rd', "\ufeffc d e", "c\r\nd\r\ne\r\n", "/* x\r\ny */ c\r\n", "PRINT({a\r\nb}) c\r\n",
